@@ -50,9 +50,13 @@ func (r *colStream) Send(m *regattapb.ReplicateResponse) error {
 				li = *c.Command.LeaderIndex
 			}
 			labels = append(labels, li)
+			// what the command IS: type, key, and whether / which range end it carries
 			k := ""
 			if c.Command.Type != regattapb.Command_DUMMY && c.Command.Kv != nil {
-				k = string(c.Command.Kv.Key)
+				k = fmt.Sprintf("%s %s", c.Command.Type, c.Command.Kv.Key)
+				if c.Command.RangeEnd != nil {
+					k += fmt.Sprintf(" end=%q", c.Command.RangeEnd)
+				}
 			}
 			keys = append(keys, k)
 		}
@@ -111,14 +115,30 @@ func logEngineRun(tr *tracer.T, rng *rand.Rand) {
 			if _, err := e.NodeHost.SyncPropose(ctx, e.NodeHost.GetNoOPSession(at.ClusterID), b); err != nil {
 				die("propose: %v", err)
 			}
-			written[applied()] = key
+			written[applied()] = "PUT " + key
 			return
 		}
-		r, err := e.Put(ctx, &regattapb.PutRequest{Table: []byte("t"), Key: []byte(key), Value: val})
-		if err != nil {
-			die("put: %v", err)
+		switch rng.Intn(6) {
+		case 0: // range delete
+			end := []byte(key + "~")
+			r, err := e.Delete(ctx, &regattapb.DeleteRangeRequest{Table: []byte("t"), Key: []byte(key), RangeEnd: end})
+			if err != nil {
+				die("delete: %v", err)
+			}
+			written[r.Header.Revision] = fmt.Sprintf("DELETE %s end=%q", key, end)
+		case 1: // single-key delete
+			r, err := e.Delete(ctx, &regattapb.DeleteRangeRequest{Table: []byte("t"), Key: []byte(key)})
+			if err != nil {
+				die("delete: %v", err)
+			}
+			written[r.Header.Revision] = fmt.Sprintf("DELETE %s", key)
+		default:
+			r, err := e.Put(ctx, &regattapb.PutRequest{Table: []byte("t"), Key: []byte(key), Value: val})
+			if err != nil {
+				die("put: %v", err)
+			}
+			written[r.Header.Revision] = "PUT " + key
 		}
-		written[r.Header.Revision] = key
 	}
 	query := func(from uint64) {
 		a := applied()
